@@ -94,13 +94,50 @@ class Front:
         return "loads", eng.loads(text, include_position=p, include_comments=c)
 
 
-def judge(ctx, eng, front, text, label, ident):
+class TreeFront:
+    """A document spread over INCLUDE files (written below self.dir); open / load / loads with the includes expanded."""
+
+    def __init__(self, mf, files, root_rel):
+        self.mf = mf
+        self.dir = tempfile.mkdtemp(prefix="mf-c13t-")
+        self.files = files
+        self.root = os.path.join(self.dir, root_rel)
+        for rel, content in files.items():
+            fn = os.path.join(self.dir, rel)
+            os.makedirs(os.path.dirname(fn), exist_ok=True)
+            with open(fn, "w", encoding="utf-8", newline="") as f:
+                f.write(content)
+        self.n = 0
+
+    def close(self):
+        import shutil
+        shutil.rmtree(self.dir, ignore_errors=True)
+
+    def load(self, eng, text, p, c):
+        self.n += 1
+        via = self.n % 3
+        if via == 1:
+            return "open+includes", self.mf.open(self.root, include_position=p, include_comments=c)
+        if via == 2:
+            with open(self.root, encoding="utf-8") as f:
+                return "load+includes", self.mf.load(f, include_position=p, include_comments=c)
+        old = os.getcwd()
+        os.chdir(os.path.dirname(self.root))
+        try:
+            return "loads+includes", self.mf.loads(self.files[os.path.relpath(self.root, self.dir)], include_position=p, include_comments=c)
+        finally:
+            os.chdir(old)
+
+
+def judge(ctx, eng, front, text, label, ident, tree=None):
     res = ctx.res
     try:
-        plain_d = eng.loads(text)
+        plain_d = eng.loads(text) if tree is None else tree.mf.open(tree.root)
     except Exception:
         res.count("not_accepted:" + label)
         return
+    if tree is not None:
+        front = tree
     pref = core.plain(plain_d)
     popts = PRINT_OPTS[sum(map(ord, ident)) % len(PRINT_OPTS)]
     printable = not (relations.contains_quote(plain_d, popts.get("quote", '"')) or relations.has_backslash(plain_d))
@@ -115,6 +152,9 @@ def judge(ctx, eng, front, text, label, ident):
     for p, c in ((False, False), (True, False), (False, True), (True, True)):
         case = {"workload": label, "doc": ident, "include_position": p, "include_comments": c,
                 "text": text if len(text) < 20000 else None}
+        if tree is not None:
+            case["files"] = tree.files
+            case["root"] = os.path.relpath(tree.root, tree.dir)
         try:
             via, d = front.load(eng, text, p, c)
         except Exception as ex:
@@ -155,7 +195,7 @@ def judge(ctx, eng, front, text, label, ident):
                 res.violation("position-data-changes-output", dict(case, out=out[:2000]), None, None)
             continue
         # with comments kept: comment text aside, the layout of the remaining tokens is the same too (line by line)
-        if p and "\r" not in text:  # (open() translates CR inside comment text: known finding cr-in-string-value)
+        if p and "\r" not in text and tree is None:  # (open() translates CR inside comment text: known finding cr-in-string-value)
             try:
                 oc = eng.dumps(eng.loads(text, include_comments=True), **popts)
                 if oc != out:
@@ -194,6 +234,51 @@ def run(ctx):
             judge(ctx, eng, front, text, "gen", h(text))
             if len(res.samples) < 2 and 100 < len(text) < 600 and "#" in text:
                 res.sample({"source": text, "printed_with_comments": eng.dumps(eng.loads(text, include_comments=True))})
+        # documents spread over INCLUDE files (comments on the INCLUDE lines and inside the included files, multi-line strings)
+        from . import C15
+        import mappyfile
+        for j in range(ctx.n(40, 1500)):
+            nodes = gen.gen_document(r, gen.GenOpts(gated=ctx.gated, p_key=r.choice([0.2, 0.4]), dup=0.0), root=r.choice(["map", "map", "layer"]))
+            gen.place_comments(nodes, r)
+            text = render.render(nodes[:1], render.Surface(layout="lines", placed_comments=True), r).text
+            lines = C15.logical_lines(text)
+            if lines is None or len(lines) < 4:
+                continue
+            tg = C15.TreeGen(r)
+            root = C15.File("root.map", 0)
+            tg.files.append(root)
+            inner = C15.File("__inner__", 0)
+            body = lines[1:-1]
+            ml = [i for i, l in enumerate(body) if "\n" in l]
+            if ml and j % 2 == 0:
+                # an included file that begins with a statement whose string runs over several lines
+                i = r.choice(ml)
+                k = r.randint(i + 1, len(body))
+                child = tg.newfile(1)
+                child.entries = body[i:k]
+                inner.entries = body[:i] + [C15.Inc(child, C15.rand_style(r))] + body[k:]
+                res.count("include_trees_child_starts_inside_multi_line_string")
+            else:
+                tg.build(inner, body, r.choice([1, 1, 2, 3]), True)
+            root.entries = [lines[0]] + inner.entries + [lines[-1]]
+            files = {}
+            for f in tg.files:
+                if f is inner:
+                    continue
+                for e in f.entries:
+                    if isinstance(e, C15.Inc):
+                        e.style["abs"] = False
+                        if r.random() < 0.6:
+                            e.style["comment"] = r.choice([" # shared with the other service", "  # 'quoted' \"comment\"", " #c", " # INCLUDE \"x\""])
+                files[f.rel] = f.eol.join(e.line("") if isinstance(e, C15.Inc) else e for e in f.entries) + (f.eol if f.trailing_newline else "")
+            tree = TreeFront(mappyfile, files, "root.map")
+            try:
+                res.count("include_trees")
+                if any("\n" in e for f in tg.files for e in f.entries if isinstance(e, str)):
+                    res.count("include_trees_with_multi_line_strings")
+                judge(ctx, eng, front, "\n".join(C15.flatten(root)), "include-tree", h(repr(sorted(files.items()))), tree=tree)
+            finally:
+                tree.close()
     finally:
         front.close()
 
@@ -203,6 +288,15 @@ def replay(ctx, v):
     front = Front()
     try:
         case = v["case"]
+        if case.get("files"):
+            import mappyfile
+            tree = TreeFront(mappyfile, case["files"], case["root"])
+            try:
+                for _ in range(3):  # the three front ends in rotation
+                    judge(ctx, eng, front, case.get("text") or "", "replay", case["doc"], tree=tree)
+            finally:
+                tree.close()
+            return
         text = case.get("text") or open(os.path.join(core.REPO, case["doc"]), encoding="utf-8").read()
         judge(ctx, eng, front, text, "replay", case["doc"])
     finally:
